@@ -66,7 +66,7 @@ theorem C11_two_stage (m1 m2 : Mgr) (h1 : MgrInv m1) (h2 : MgrInv m2) (p : Optio
       | some b => have := hd.1 b hi; simp only []; grind
     | some t2 =>
       have := (env2 t2 rfl).1
-      simp only [shifted] at this
+      simp only [shifted, Extracted.Proposal.shiftedLower, Extracted.Proposal.shiftedUpper] at this
       simp only [Option.getD_none, Option.getD_some]
       cases hi : sb.incl with
       | none => rw [hi] at this; simp only [] at this ⊢; grind
@@ -81,7 +81,7 @@ theorem C11_two_stage (m1 m2 : Mgr) (h1 : MgrInv m1) (h2 : MgrInv m2) (p : Optio
       | some b => rw [hi] at e1; simp only [] at e1 ⊢; grind
     | some t2 =>
       have e2 := (env2 t2 rfl).1
-      simp only [shifted] at e2
+      simp only [shifted, Extracted.Proposal.shiftedLower, Extracted.Proposal.shiftedUpper] at e2
       simp only [Option.getD_some]
       cases hi : sb.incl with
       | none => rw [hi] at e1 e2; simp only [Option.map_none] at e1 e2 ⊢; grind
